@@ -117,7 +117,9 @@ def repair_cases(tier, rng):
 
 
 def worlds():
-    files = [None, DEV, DEV + b"\n", b"  " + DEV + b"\r\n", OTHER, b"", b"short", b"12345678", b"bad pin!"]
+    files = [None, DEV, DEV + b"\n", b"  " + DEV + b"\r\n", OTHER, b"", b"short", b"12345678", b"bad pin!",
+             # too long: the first 8 bytes alone would be a valid PIN
+             DEV + b"9", DEV + b"wxyz", DEV + b"\n" + OTHER]
     defaults = [DEV, OTHER, None]
     for f, d in itertools.product(files, defaults):
         yield f, d
